@@ -65,6 +65,7 @@ type certArgs struct {
 	Mode     string   `json:"mode"`     // receptor | dns
 	Role     string   `json:"role"`     // server (we verify a server) | client (we verify a client)
 	Garbage  bool     `json:"garbage"`  // present bytes that are not a certificate
+	Seq      []string `json:"seq"`      // verifyseq: which of the two certificates (A pinned, B not) each handshake presents
 }
 
 func certNormIPs(ips []net.IP) []string {
@@ -149,6 +150,58 @@ func certApply(op string, rawArgs json.RawMessage) interface{} {
 			"req":    certNames(rn.DNSNames, rn.IPAddresses, rn.NodeIDs),
 			"cert":   certNames(cert.DNSNames, cert.IPAddresses, cids),
 			"chains": verr == nil, "accept": verdicts}}
+	case "verifyseq":
+		// one verifier (as installed once in a server TLS config) serving several handshakes: certificate A is
+		// pinned, certificate B is from the same authority with the same names but not pinned
+		mk := func(serial int64) []byte {
+			tmpl := &x509.Certificate{SerialNumber: big.NewInt(serial), Subject: pkix.Name{CommonName: "verif peer"}, KeyUsage: x509.KeyUsageDigitalSignature,
+				NotBefore: time.Now().Add(-time.Hour), NotAfter: time.Now().Add(24 * time.Hour),
+				ExtKeyUsage: []x509.ExtKeyUsage{x509.ExtKeyUsageServerAuth, x509.ExtKeyUsageClientAuth}}
+			san, err := utils.MakeReceptorSAN(nil, nil, []string{"node-a"})
+			if err != nil {
+				panic(err)
+			}
+			tmpl.ExtraExtensions = []pkix.Extension{*san}
+			der, err := x509.CreateCertificate(rand.Reader, tmpl, certCA.Certificate, &certKey.PublicKey, certCA.PrivateKey)
+			if err != nil {
+				panic(err)
+			}
+			return der
+		}
+		derA, derB := mk(1001), mk(1002)
+		var pins [][]byte
+		for _, p := range a.Pins {
+			switch p {
+			case "sha256":
+				s := sha256.Sum256(derA)
+				pins = append(pins, s[:])
+			case "sha512":
+				s := sha512.Sum512(derA)
+				pins = append(pins, s[:])
+			case "sha224":
+				s := sha256.Sum224(derA)
+				pins = append(pins, s[:])
+			case "sha384":
+				s := sha512.Sum384(derA)
+				pins = append(pins, s[:])
+			}
+		}
+		pool := x509.NewCertPool()
+		pool.AddCert(certCA.Certificate)
+		role := VerifyType(VerifyServer)
+		if a.Role == "client" {
+			role = VerifyClient
+		}
+		f := ReceptorVerifyFunc(&tls.Config{RootCAs: pool, ClientCAs: pool}, pins, "node-a", ExpectedHostnameTypeReceptor, role, verifQuietLogger())
+		acc := []bool{}
+		for _, which := range a.Seq {
+			der := derA
+			if which == "B" {
+				der = derB
+			}
+			acc = append(acc, f([][]byte{der}, nil) == nil)
+		}
+		return map[string]interface{}{"accepts": acc}
 	case "verify":
 		signer, signerKey := certCA.Certificate, certCA.PrivateKey
 		switch a.CA {
@@ -372,6 +425,12 @@ func verifyGen(v *verifRun) {
 		emit(c)
 		c.Expected = ""
 		emit(c)
+	}
+	for _, seq := range [][]string{{"A", "B"}, {"B", "A"}, {"A", "B", "A"}, {"B", "B", "A", "A", "B"}, {"A", "A"}} {
+		for _, pin := range []string{"sha256", "sha512", "sha224", "sha384"} {
+			v.do(certApply, "verifyseq", certArgs{DNS: []string{}, IPs: []string{}, IDs: []string{}, Candidates: []string{}, Pins: []string{pin},
+				Seq: seq, Role: []string{"server", "client"}[v.rng.Intn(2)]})
+		}
 	}
 	for i := 0; i < v.n; i++ {
 		a := certArgs{CA: cas[v.rng.Intn(len(cas))], Validity: vals[v.rng.Intn(len(vals))], Usage: usages[v.rng.Intn(4)],
